@@ -10,8 +10,10 @@ import (
 	"bytes"
 	"encoding/hex"
 	"fmt"
+	"io"
 	"math/rand"
 	"net/http"
+	"os"
 	"sort"
 	"strconv"
 	"strings"
@@ -103,6 +105,9 @@ func splitNonEmpty(s, sep string) []string {
 	return strings.Split(s, sep)
 }
 
+// opSpelling: the operator names of the input lines and how assert/response spells them
+var opSpelling = map[string]string{"eq": "eq", "lt": "lt", "gt": "gt", "eqs": "=", "lts": "<", "gts": ">", "bad": "~", "ge": ">="}
+
 func runAssert(m map[string]string) string {
 	a := postprocessor.AssertResponse{StatusCode: atoi(m["cfgst"], 0), Headers: map[string]string{}}
 	for _, p := range splitNonEmpty(m["pats"], ",") {
@@ -114,18 +119,23 @@ func runAssert(m map[string]string) string {
 	}
 	if sz := m["size"]; sz != "" && sz != "-" {
 		kv := strings.SplitN(sz, ":", 2)
-		a.Size = &postprocessor.AssertSize{Op: kv[0], Val: atoi(kv[1], 0)}
+		a.Size = &postprocessor.AssertSize{Op: opSpelling[kv[0]], Val: atoi(kv[1], 0)}
 	}
-	pp, err := scnimport.NewAssertResponsePostprocessor(a)
-	if err != nil {
-		return "cfgerr"
+	// through the registered constructor; an operator its Validate refuses is processed on the value as configured
+	// (it reaches the default arm of the switch)
+	type processor interface {
+		Process(resp *http.Response, body io.Reader) (map[string]any, error)
+	}
+	var pp processor = a
+	if c, err := scnimport.NewAssertResponsePostprocessor(a); err == nil {
+		pp = c
 	}
 	resp := &http.Response{StatusCode: atoi(m["st"], 200), Header: http.Header{}}
 	for _, h := range splitNonEmpty(m["hdrs"], ",") {
 		kv := strings.SplitN(h, ":", 2)
 		resp.Header.Set(kv[0], unhx(kv[1]))
 	}
-	_, err = pp.Process(resp, bytes.NewReader([]byte(unhx(m["body"]))))
+	_, err := pp.Process(resp, bytes.NewReader([]byte(unhx(m["body"]))))
 	if err != nil {
 		return "err"
 	}
@@ -213,7 +223,7 @@ func ppHCL(tok string) string {
 		}
 		if f[4] != "-" {
 			kv := strings.SplitN(f[4], ":", 2)
-			op := map[string]string{"eq": "=", "lt": "<", "gt": ">"}[kv[0]]
+			op := map[string]string{"eq": "=", "lt": "<", "gt": ">", "eqw": "eq", "ltw": "lt", "gtw": "gt"}[kv[0]]
 			fmt.Fprintf(&b, "    size {\n      val = %s\n      op = %s\n    }\n", kv[1], shot.HCLString(op))
 		}
 		b.WriteString("  }")
@@ -247,9 +257,42 @@ func fmtRun(res shot.Result) string {
 	return fmt.Sprintf("res=%s n=%d s=%s", res.Class, len(res.Samples), strings.Join(parts, ","))
 }
 
+// gunOpts renders the optional gun settings an input line can switch on:
+//
+//	alog=all|warning|error  answlog (written to /dev/null)     trace=1 / dump=1  httptrace
+//	redir=1  follow redirects     gz=1  let the transport ask for gzip and decode it     shc=N  shared client pool
+//	rht=ms   response-header-timeout
+func gunOpts(m map[string]string) string {
+	s := ""
+	if v := m["alog"]; v != "" {
+		s += fmt.Sprintf(`, answlog: {enabled: true, path: "/dev/null", filter: %s}`, v)
+	}
+	if m["trace"] == "1" || m["dump"] == "1" {
+		s += fmt.Sprintf(`, httptrace: {trace: %v, dump: %v}`, m["trace"] == "1", m["dump"] == "1")
+	}
+	if m["redir"] == "1" {
+		s += `, redirect: true`
+	}
+	if m["gz"] == "1" {
+		s += `, disable-compression: false`
+	}
+	if n := atoi(m["shc"], 0); n > 0 {
+		s += fmt.Sprintf(`, shared-client: {enabled: true, client-number: %d}`, n)
+	}
+	if n := atoi(m["rht"], 0); n > 0 {
+		s += fmt.Sprintf(`, response-header-timeout: %dms`, n)
+	}
+	return s
+}
+
+func httpGunYAML(typ, target string, m map[string]string) string {
+	return fmt.Sprintf(`{type: "%s", target: "%s", dial: {timeout: 2s}%s}`, typ, target, gunOpts(m))
+}
+
 func runRun(m map[string]string) string {
 	inst := atoi(m["inst"], 1)
 	gun := m["gun"]
+	debug := m["dbg"] == "1"
 	switch gun {
 	case "http", "connect", "http2":
 		var reqs []shot.HTTPReq
@@ -257,80 +300,76 @@ func runRun(m map[string]string) string {
 			f := strings.SplitN(r, ":", 2)
 			reqs = append(reqs, shot.HTTPReq{Tag: fmt.Sprintf("r%d", i), URI: fmt.Sprintf("/p/%d", i), Script: f[0]})
 		}
-		g := shot.HTTPGunConf{Type: gun, RHTimeoutMs: atoi(m["rht"], 0)}
+		var target string
 		var stop func()
 		switch m["tgt"] {
 		case "dead":
-			g.Target = shot.DeadAddr()
+			target = shot.DeadAddr()
 		case "tls2":
-			g.Target, stop = shot.NewTLSTarget(true)
+			target, stop = shot.NewTLSTarget(true)
 		case "tls1":
-			g.Target, stop = shot.NewTLSTarget(false)
+			target, stop = shot.NewTLSTarget(false)
 		default:
-			t := shot.NewTarget()
-			g.Target, stop = t.Addr, t.Close
+			t := newHostile()
+			target, stop = t.Addr, t.Close
 		}
 		if stop != nil {
 			defer stop()
 		}
 		passes := atoi(m["m"], 1)
 		f := shot.TempFile(".uri", shot.URIAmmo(reqs))
-		gy := shot.HTTPPool(g, reqs, inst)
-		_ = gy
-		conf := shot.PoolYAML("uri", f, fmt.Sprintf(", passes: %d", passes), gunYAML(g), passes*len(reqs)+inst, inst)
-		return fmtRun(shot.RunEngine(conf, 60*time.Second))
+		conf := shot.PoolYAML("uri", f, fmt.Sprintf(", passes: %d", passes), httpGunYAML(gun, target, m), passes*len(reqs)+inst, inst)
+		return fmtRun(runEngine(conf, 60*time.Second, debug))
 	case "http/scenario":
 		var steps []shot.ScnStep
-		for _, r := range strings.Split(m["steps"], ";") {
+		for i, r := range strings.Split(m["steps"], ";") {
 			f := strings.Split(r, ",")
 			if len(f) < 4 {
 				panic("bad step " + r)
 			}
 			st := shot.ScnStep{Name: f[0], URI: "/scn/" + f[0], Script: f[1]}
 			for _, p := range splitNonEmpty(f[3], "+") {
-				if p == "-" {
-					continue
-				}
-				if p == "tpl" {
+				switch {
+				case p == "-":
+				case p == "tpl":
 					st.URI += "{{"
-					continue
+				case p == "U" && i > 0:
+					// the URI uses the variable `v` a postprocessor of the previous step extracted from ITS response
+					st.URI += "?x={{.request." + strings.Split(strings.Split(m["steps"], ";")[i-1], ",")[0] + ".postprocessor.v}}"
+				case p == "U":
+				default:
+					st.PP = append(st.PP, ppHCL(p))
 				}
-				st.PP = append(st.PP, ppHCL(p))
 			}
 			steps = append(steps, st)
 		}
-		g := shot.HTTPGunConf{RHTimeoutMs: atoi(m["rht"], 0)}
-		var stop func()
+		var target string
 		if m["tgt"] == "dead" {
-			g.Target = shot.DeadAddr()
+			target = shot.DeadAddr()
 		} else {
-			t := shot.NewTarget()
-			g.Target, stop = t.Addr, t.Close
-			defer stop()
+			t := newHostile()
+			target = t.Addr
+			defer t.Close()
 		}
-		conf := shot.ScenarioPool(g, "scn", steps, atoi(m["n"], 1), inst)
-		return fmtRun(shot.RunEngine(conf, 60*time.Second))
+		f := shot.TempFile(".hcl", shot.ScenarioHCL("scn", steps))
+		conf := shot.PoolYAML("http/scenario", f, "", httpGunYAML("http/scenario", target, m), atoi(m["n"], 1), inst)
+		return fmtRun(runEngine(conf, 60*time.Second, debug))
 	case "grpc":
 		var reqs []shot.GrpcReq
 		for i, r := range strings.Split(m["reqs"], ",") {
 			f := strings.SplitN(r, ":", 2)
 			q := shot.GrpcReq{Tag: fmt.Sprintf("r%d", i), Call: "target.TargetService.Hello", Payload: map[string]any{"name": "verif"}}
 			switch f[0] {
-			case "ok":
-			case "code":
-				q.Metadata = map[string]string{"x-code": f[1]}
-			case "hang":
-				q.Metadata = map[string]string{"x-hang": "1"}
 			case "nomethod":
 				q.Call = "target.TargetService.NoSuchMethod"
 			case "badpayload":
 				q.Payload = map[string]any{"no_such_field": 1}
 			default:
-				panic("bad grpc kind " + f[0])
+				q.Metadata, _ = grpcKindMeta(f[0], f[1])
 			}
 			reqs = append(reqs, q)
 		}
-		addr, stop := shot.NewGrpcTargetStopAfter(atoi(m["stopafter"], 0))
+		addr, stop := newHostileGrpc(atoi(m["stopafter"], 0))
 		defer stop()
 		passes := atoi(m["m"], 1)
 		f := shot.TempFile(".json", shot.GrpcAmmo(reqs))
@@ -338,9 +377,15 @@ func runRun(m map[string]string) string {
 		if to := atoi(m["to"], 0); to > 0 {
 			gy += fmt.Sprintf(", timeout: %dms", to)
 		}
+		if v := m["alog"]; v != "" {
+			gy += fmt.Sprintf(`, answlog: {enabled: true, path: "/dev/null", filter: %s}`, v)
+		}
+		if n := atoi(m["shc"], 0); n > 0 {
+			gy += fmt.Sprintf(`, shared-client: {enabled: true, client-number: %d}`, n)
+		}
 		gy += "}"
 		conf := shot.PoolYAML("grpc/json", f, fmt.Sprintf(", passes: %d", passes), gy, passes*len(reqs)+inst, inst)
-		return fmtRun(shot.RunEngine(conf, 60*time.Second))
+		return fmtRun(runEngine(conf, 60*time.Second, debug))
 	case "grpc/scenario":
 		var calls []shot.GrpcCall
 		for i, r := range strings.Split(m["calls"], ";") {
@@ -350,15 +395,12 @@ func runRun(m map[string]string) string {
 			}
 			c := shot.GrpcCall{Name: fmt.Sprintf("c%d", i), Tag: f[0], Call: "target.TargetService.Hello", Payload: `{"name": "verif"}`}
 			switch f[1] {
-			case "ok":
-			case "code":
-				c.Metadata = map[string]string{"x-code": f[2]}
-			case "hang":
-				c.Metadata = map[string]string{"x-hang": "1"}
 			case "nomethod":
 				c.Call = "target.TargetService.NoSuchMethod"
 			case "badpayload":
 				c.Payload = `{"no_such_field": 1}`
+			default:
+				c.Metadata, _ = grpcKindMeta(f[1], f[2])
 			}
 			if strings.HasPrefix(f[3], "as") {
 				g := strings.SplitN(f[3][2:], ":", 2)
@@ -370,20 +412,21 @@ func runRun(m map[string]string) string {
 			}
 			calls = append(calls, c)
 		}
-		addr, stop := shot.NewGrpcTarget()
+		addr, stop := newHostileGrpc(0)
 		defer stop()
-		conf := shot.GrpcScenarioPool(addr, atoi(m["to"], 0), "gscn", calls, atoi(m["n"], 1), inst)
-		return fmtRun(shot.RunEngine(conf, 60*time.Second))
+		f := shot.TempFile(".hcl", shot.GrpcScenarioHCL("gscn", calls))
+		gy := fmt.Sprintf(`{type: grpc/scenario, target: "%s"`, addr)
+		if to := atoi(m["to"], 0); to > 0 {
+			gy += fmt.Sprintf(", timeout: %dms", to)
+		}
+		if v := m["alog"]; v != "" {
+			gy += fmt.Sprintf(`, answlog: {enabled: true, path: "/dev/null", filter: %s}`, v)
+		}
+		gy += "}"
+		conf := shot.PoolYAML("grpc/scenario", f, "", gy, atoi(m["n"], 1), inst)
+		return fmtRun(runEngine(conf, 60*time.Second, debug))
 	}
 	return "bad-gun"
-}
-
-func gunYAML(g shot.HTTPGunConf) string {
-	s := fmt.Sprintf(`{type: "%s", target: "%s", dial: {timeout: 2s}`, g.Type, g.Target)
-	if g.RHTimeoutMs > 0 {
-		s += fmt.Sprintf(`, response-header-timeout: %dms`, g.RHTimeoutMs)
-	}
-	return s + "}"
 }
 
 func run(input string) string {
@@ -406,14 +449,6 @@ func run(input string) string {
 }
 
 // ---------------------------------------------------------------- generation
-
-func truthOf(script string) string {
-	sc, err := shot.ParseScript(script)
-	if err != nil {
-		panic(err)
-	}
-	return sc.Truth()
-}
 
 func randASCII(r *rand.Rand, n int) string {
 	const al = "abcdefXYZ0123456789 =-_/.:;Bearer"
@@ -492,18 +527,28 @@ func randPP(r *rand.Rand) string {
 	}
 }
 
+var safeStatus = []int{200, 200, 200, 201, 301, 400, 404, 418, 500, 503, 599, 299, 600, 999, 0}
+
 func randScript(r *rand.Rand) string {
-	switch r.Intn(12) {
+	switch r.Intn(16) {
 	case 0:
-		return []string{"actclose", "actreset", "actgarbage", "actbadhdr"}[r.Intn(4)]
+		return []string{"actclose", "actreset", "actgarbage", "actbadhdr", "actshortstatus"}[r.Intn(5)]
 	case 1:
 		return fmt.Sprintf("s%d.b%s.c%d", 200, "x10", 100+r.Intn(1000))
 	case 2:
 		return "s200.bjson.actmidclose"
 	case 3:
 		return fmt.Sprintf("s%d", []int{204, 304, 100, 102, 199}[r.Intn(5)])
+	case 4, 5:
+		// protocol-level misbehaviour around a response that would otherwise be fine
+		act := []string{"badchunk", "cutchunk", "dupcl", "negcl", "hugecl", "badte", "many1xx", "few1xx", "nulhdr", "noreason", "slow", "extra", "badver", "badgzip", "nolen"}[r.Intn(15)]
+		st := []int{200, 200, 404, 500, 503}[r.Intn(5)]
+		return fmt.Sprintf("s%d.b%s.act%s", st, []string{"json", "html", "x7", "x4096", "badjson"}[r.Intn(5)], act)
+	case 6:
+		// an interim response first
+		return fmt.Sprintf("i%d.s%d.b%s", []int{100, 102, 103}[r.Intn(3)], safeStatus[r.Intn(len(safeStatus))], bodyClasses[r.Intn(len(bodyClasses))])
 	default:
-		st := []int{200, 200, 200, 201, 301, 400, 404, 418, 500, 503, 599, 299, 600, 999}[r.Intn(14)]
+		st := safeStatus[r.Intn(len(safeStatus))]
 		s := fmt.Sprintf("s%d.b%s", st, bodyClasses[r.Intn(len(bodyClasses))])
 		if r.Intn(2) == 0 {
 			s += ".hX-Val~" + hx(randASCII(r, r.Intn(12)))
@@ -518,6 +563,63 @@ func randScript(r *rand.Rand) string {
 	}
 }
 
+// randRedirect: a redirecting response; followed only by a client with `redirect: true`
+func randRedirect(r *rand.Rand) string {
+	loc := []string{"/p/0", "http://%zz/", "http://" + shot.DeadAddr() + "/gone", "//", "/scn/st0?again=1"}[r.Intn(5)]
+	return fmt.Sprintf("s%d.bhtml.hLocation~%s", []int{301, 302, 303, 307, 308}[r.Intn(5)], hx(loc))
+}
+
+// randOpts: optional gun settings that make more of the guns' code handle the response
+func randOpts(r *rand.Rand, scenario bool) (string, clientConf) {
+	var cc clientConf
+	s := ""
+	if r.Intn(3) == 0 {
+		s += " alog=" + []string{"all", "warning", "error"}[r.Intn(3)]
+	}
+	if r.Intn(4) == 0 {
+		s += " trace=1"
+	}
+	if r.Intn(4) == 0 {
+		s += " dump=1"
+	}
+	if r.Intn(4) == 0 {
+		s += " dbg=1"
+	}
+	if r.Intn(4) == 0 {
+		s += " redir=1"
+		cc.redir = true
+	}
+	if r.Intn(4) == 0 {
+		s += " gz=1"
+		cc.gzip = true
+	}
+	if r.Intn(5) == 0 {
+		s += fmt.Sprintf(" shc=%d", 1+r.Intn(3))
+	}
+	return s, cc
+}
+
+func randGrpcKind(r *rand.Rand) string {
+	switch r.Intn(12) {
+	case 0, 1, 2:
+		return "ok:0"
+	case 3:
+		return "nomethod:0"
+	case 4:
+		return "badpayload:0"
+	case 5:
+		return fmt.Sprintf("garbage:%d", r.Intn(4))
+	case 6:
+		return []string{"foreign:0", "empty:0"}[r.Intn(2)]
+	case 7:
+		return fmt.Sprintf("details:%d", 1+r.Intn(16))
+	case 8:
+		return fmt.Sprintf("code:%d", []int{17, 99, 1000, 4294967295}[r.Intn(4)])
+	default:
+		return fmt.Sprintf("code:%d", 1+r.Intn(16))
+	}
+}
+
 func gen(r *rand.Rand, tier string) []string {
 	thorough := tier == "thorough"
 	var out []string
@@ -527,14 +629,28 @@ func gen(r *rand.Rand, tier string) []string {
 		}
 		return q
 	}
-	// 1. direct differential of the modifiers
-	for i := 0; i < mul(1500, 40000); i++ {
+	// 1. direct differential of the modifiers: random chains ...
+	for i := 0; i < mul(3000, 150000); i++ {
 		out = append(out, fmt.Sprintf("k=mod mods=%s val=%s", randMods(r), hx(randASCII(r, r.Intn(14)))))
+	}
+	// ... and EXHAUSTIVELY every (start, end) in a window around the value's length, for every short length
+	w, maxLen := mul(6, 12), mul(4, 9)
+	for l := 0; l <= maxLen; l++ {
+		val := hx("abcdefghijkl"[:l])
+		if l == 0 {
+			val = hx("q") // an empty value never reaches the modifier; keep the shortest non-empty one twice
+		}
+		for a := -w - l; a <= w+l; a++ {
+			out = append(out, fmt.Sprintf("k=mod mods=s1:%d val=%s", a, val))
+			for b := -w - l; b <= w+l; b++ {
+				out = append(out, fmt.Sprintf("k=mod mods=s2:%d:%d val=%s", a, b, val))
+			}
+		}
 	}
 	// the documented example
 	out = append(out, "k=mod mods=lo/rp:"+hx("=")+":"+hx("")+"/s1:6 val="+hx("Basic Ym9zY236Ym9zY28="))
 	// non-ASCII / binary header values (the model predicts only chains without case mapping)
-	for i := 0; i < mul(100, 2000); i++ {
+	for i := 0; i < mul(300, 10000); i++ {
 		b := make([]byte, r.Intn(10))
 		r.Read(b)
 		for j := range b {
@@ -545,8 +661,9 @@ func gen(r *rand.Rand, tier string) []string {
 		out = append(out, fmt.Sprintf("k=mod mods=%s val=%s bin=1", randMods(r), hex.EncodeToString(b)))
 	}
 	out = append(out, "k=mod mods=bad val="+hx("abc"))
-	// 2. assert/response http
-	for i := 0; i < mul(300, 6000); i++ {
+	// 2. assert/response http (every spelling of the size operator, and one Validate would refuse)
+	ops := []string{"eq", "lt", "gt", "eqs", "lts", "gts", "bad", "ge"}
+	for i := 0; i < mul(800, 30000); i++ {
 		body := []string{shot.JSONBody, shot.BadJSONBody, "", "xxxxxxxxxxxx", shot.HTMLBody}[r.Intn(5)]
 		var pats []string
 		for j := r.Intn(3); j > 0; j-- {
@@ -559,13 +676,13 @@ func gen(r *rand.Rand, tier string) []string {
 		}
 		size := "-"
 		if r.Intn(2) == 0 {
-			size = []string{"eq", "lt", "gt"}[r.Intn(3)] + ":" + strconv.Itoa([]int{0, 1, 12, len(body), 100000}[r.Intn(5)])
+			size = ops[r.Intn(len(ops))] + ":" + strconv.Itoa([]int{0, 1, 12, len(body), len(body) + 1, 100000}[r.Intn(6)])
 		}
 		out = append(out, fmt.Sprintf("k=assert st=%d cfgst=%d body=%s pats=%s hdrs=%s chk=%s size=%s",
 			[]int{200, 404, 500, 0, 999}[r.Intn(5)], []int{0, 200, 404}[r.Intn(3)], hx(body), strings.Join(pats, ","), hdrs, chk, size))
 	}
 	// 3. assert/response grpc
-	for i := 0; i < mul(150, 3000); i++ {
+	for i := 0; i < mul(400, 15000); i++ {
 		outv := "nil"
 		if r.Intn(3) != 0 {
 			outv = hx([]string{"Hello verif!", "", "token"}[r.Intn(3)])
@@ -585,42 +702,79 @@ func gen(r *rand.Rand, tier string) []string {
 	}
 	sort.Strings(exprs)
 	randBody := func() string {
-		if r.Intn(3) == 0 {
+		switch r.Intn(4) {
+		case 0:
 			b := make([]byte, r.Intn(64))
 			r.Read(b)
 			return "raw:" + hex.EncodeToString(b)
+		case 1:
+			// mutilated well-formed documents: cut, doubled, bytes flipped
+			src := []byte([]string{shot.JSONBody, shot.HTMLBody, `[{"a":[[[[{"b":null}]]]]}, 1e999, "\ud800"]`, `<a><b><c><d><e><table><tr><td><select><option><p>`}[r.Intn(4)])
+			switch r.Intn(3) {
+			case 0:
+				src = src[:r.Intn(len(src)+1)]
+			case 1:
+				src = append(src, src[r.Intn(len(src)):]...)
+			default:
+				for k := 0; k < 3 && len(src) > 0; k++ {
+					src[r.Intn(len(src))] ^= byte(1 << uint(r.Intn(8)))
+				}
+			}
+			return "raw:" + hex.EncodeToString(src)
 		}
 		return bodyClasses[r.Intn(len(bodyClasses))]
 	}
-	for i := 0; i < mul(200, 4000); i++ {
+	for i := 0; i < mul(500, 20000); i++ {
 		e := exprs[r.Intn(len(exprs))]
 		out = append(out, fmt.Sprintf("k=xpath expr=%s kind=%s body=%s", e, exprKind[e], randBody()))
 		out = append(out, fmt.Sprintf("k=jsonpath path=%s body=%s", []string{"result", "item0", "missing", "ab", "items"}[r.Intn(5)], randBody()))
 	}
-	// 5. engine runs: plain http guns x behaviours
-	for i := 0; i < mul(12, 150); i++ {
+	// 5. engine runs: plain http guns x behaviours x gun settings
+	for i := 0; i < mul(60, 2500); i++ {
 		gun := []string{"http", "connect"}[r.Intn(2)]
+		opts, cc := randOpts(r, false)
 		var reqs []string
 		for j := 1 + r.Intn(6); j > 0; j-- {
 			s := randScript(r)
-			reqs = append(reqs, s+":"+truthOf(s))
+			if cc.redir && r.Intn(2) == 0 || r.Intn(12) == 0 {
+				s = randRedirect(r)
+			}
+			reqs = append(reqs, s+":"+truthOf(s, cc))
 		}
-		out = append(out, fmt.Sprintf("k=run gun=%s tgt=live inst=%d m=%d reqs=%s", gun, []int{1, 2, 4}[r.Intn(3)], 1+r.Intn(3), strings.Join(reqs, ",")))
+		out = append(out, fmt.Sprintf("k=run gun=%s tgt=live inst=%d m=%d%s reqs=%s", gun, []int{1, 2, 4}[r.Intn(3)], 1+r.Intn(3), opts, strings.Join(reqs, ",")))
 	}
 	out = append(out, "k=run gun=http tgt=dead inst=2 m=3 reqs=s200:f,s404:f", "k=run gun=connect tgt=dead inst=1 m=2 reqs=s200:f")
+	out = append(out, "k=run gun=http tgt=dead inst=2 m=2 alog=all trace=1 dump=1 dbg=1 reqs=s200:f")
 	out = append(out, "k=run gun=http tgt=live inst=2 m=1 rht=1000 reqs=acthang:f,acthang:f")
 	// huge bodies and headers
 	out = append(out, fmt.Sprintf("k=run gun=http tgt=live inst=2 m=1 reqs=s200.bx%d:r200,s500.bx%d.vX-Big~%d:r500", mul(2<<20, 16<<20), 1<<20, 200000))
-	// http2 gun: HTTP/2 target (fine) and a TLS target without HTTP/2 (the documented fatal condition)
-	out = append(out, "k=run gun=http2 tgt=tls2 inst=2 m=2 reqs=s200.bx5:r200,s503.bjson:r503,s404:r404,s200.bx40.actmidclose:rb200")
+	out = append(out, fmt.Sprintf("k=run gun=http tgt=live inst=1 m=1 alog=all dump=1 dbg=1 reqs=s200.bx%d:r200,s200.bx10.vX-Big~%d:r200", 1<<20, 2<<20))
+	// http2 gun: HTTP/2 target (fine), a TLS target without HTTP/2 (the documented fatal condition), a dead one,
+	// and a plain-TCP one (the TLS handshake fails: an error, not the fatal condition)
+	for i := 0; i < mul(3, 60); i++ {
+		opts, _ := randOpts(r, false)
+		opts = strings.ReplaceAll(strings.ReplaceAll(opts, " redir=1", ""), " gz=1", "")
+		var reqs []string
+		for j := 1 + r.Intn(5); j > 0; j-- {
+			reqs = append(reqs, []string{"s200.bx5:r200", "s503.bjson:r503", "s404:r404", "s200.bx40.actmidclose:rb200", "s999.bhtml:r999", "actclose:f", "s204:r204",
+				"s200.bx300000:r200", "s500.bbadjson.hX-Val~6162:r500"}[r.Intn(9)])
+		}
+		out = append(out, fmt.Sprintf("k=run gun=http2 tgt=tls2 inst=%d m=%d%s reqs=%s", 1+r.Intn(3), 1+r.Intn(2), opts, strings.Join(reqs, ",")))
+	}
 	out = append(out, "k=run gun=http2 tgt=tls1 inst=1 m=1 reqs=s200.bx5:r200")
+	out = append(out, "k=run gun=http2 tgt=tls1 inst=3 m=2 alog=all dbg=1 reqs=s200.bx5:r200,s404:r404")
 	out = append(out, "k=run gun=http2 tgt=dead inst=1 m=2 reqs=s200:f")
-	// 6. engine runs: http scenarios x postprocessors x behaviours
-	for i := 0; i < mul(60, 900); i++ {
+	out = append(out, "k=run gun=http2 tgt=live inst=2 m=2 reqs=s200:f,s500.bjson:f")
+	// 6. engine runs: http scenarios x postprocessors x behaviours x gun settings
+	for i := 0; i < mul(250, 12000); i++ {
 		k := 1 + r.Intn(3)
+		opts, cc := randOpts(r, true)
 		var steps []string
 		for j := 0; j < k; j++ {
 			s := randScript(r)
+			if cc.redir && r.Intn(3) == 0 || r.Intn(15) == 0 {
+				s = randRedirect(r)
+			}
 			var pps []string
 			for q := r.Intn(3); q > 0; q-- {
 				pps = append(pps, randPP(r))
@@ -628,32 +782,55 @@ func gen(r *rand.Rand, tier string) []string {
 			if r.Intn(25) == 0 {
 				pps = append(pps, "tpl")
 			}
+			if j > 0 && r.Intn(4) == 0 {
+				pps = append(pps, "U")
+			}
 			pp := "-"
 			if len(pps) > 0 {
 				pp = strings.Join(pps, "+")
 			}
-			steps = append(steps, fmt.Sprintf("st%d,%s,%s,%s", j, s, truthOf(s), pp))
+			steps = append(steps, fmt.Sprintf("st%d,%s,%s,%s", j, s, truthOf(s, cc), pp))
 		}
-		out = append(out, fmt.Sprintf("k=run gun=http/scenario tgt=live inst=%d n=%d steps=%s", []int{1, 1, 2, 3}[r.Intn(4)], 1+r.Intn(4), strings.Join(steps, ";")))
+		out = append(out, fmt.Sprintf("k=run gun=http/scenario tgt=live inst=%d n=%d%s steps=%s", []int{1, 1, 2, 3}[r.Intn(4)], 1+r.Intn(4), opts, strings.Join(steps, ";")))
 	}
 	out = append(out, "k=run gun=http/scenario tgt=dead inst=2 n=3 steps=st0,s200,f,H~X-Val~s1:5")
 	out = append(out, "k=run gun=http/scenario tgt=live inst=1 n=2 rht=1000 steps=st0,acthang,f,-")
 	out = append(out, fmt.Sprintf("k=run gun=http/scenario tgt=live inst=1 n=2 steps=st0,s200.bx%d,r200,A~200~%s~-~gt:1000+X~divdata+J~result", mul(1<<20, 8<<20), hx("xxx")))
+	// response-derived variables flow into the next request: header / json / xpath values of every shape
+	for _, src := range []string{"H~X-Val", "H~X-Val~s1:3", "J~result", "J~items", "J~ab", "X~divdata", "X~title", "X~none", "X~href"} {
+		for _, hv := range []string{"abc", "a b\tc", "%zz", "\x7f{{", "../../x", strings.Repeat("k", 9000)} {
+			for _, bc := range []string{"json", "html", "empty"} {
+				s := "s200.b" + bc + ".hX-Val~" + hx(hv)
+				out = append(out, fmt.Sprintf("k=run gun=http/scenario tgt=live inst=1 n=2 steps=st0,%s,r200,%s;st1,s200.bjson,r200,U;st2,s404,r404,U", s, src))
+			}
+		}
+	}
 	// 7. engine runs: gRPC guns
-	for i := 0; i < mul(6, 60); i++ {
+	for i := 0; i < mul(25, 1200); i++ {
 		var reqs []string
 		for j := 1 + r.Intn(6); j > 0; j-- {
-			reqs = append(reqs, []string{"ok:0", "ok:0", "nomethod:0", "badpayload:0", fmt.Sprintf("code:%d", 1+r.Intn(20))}[r.Intn(5)])
+			reqs = append(reqs, randGrpcKind(r))
 		}
-		out = append(out, fmt.Sprintf("k=run gun=grpc tgt=grpc inst=%d m=%d reqs=%s", []int{1, 2, 4}[r.Intn(3)], 1+r.Intn(3), strings.Join(reqs, ",")))
+		opts := ""
+		if r.Intn(3) == 0 {
+			opts += " alog=" + []string{"all", "warning", "error"}[r.Intn(3)]
+		}
+		if r.Intn(4) == 0 {
+			opts += " dbg=1"
+		}
+		if r.Intn(5) == 0 {
+			opts += fmt.Sprintf(" shc=%d", 1+r.Intn(2))
+		}
+		out = append(out, fmt.Sprintf("k=run gun=grpc tgt=grpc inst=%d m=%d%s reqs=%s", []int{1, 2, 4}[r.Intn(3)], 1+r.Intn(3), opts, strings.Join(reqs, ",")))
 	}
 	out = append(out, "k=run gun=grpc tgt=grpc inst=1 m=1 to=600 reqs=hang:0,ok:0")
 	out = append(out, "k=run gun=grpc tgt=grpc inst=2 m=4 stopafter=3 reqs=ok:0,ok:0")
-	for i := 0; i < mul(8, 100); i++ {
+	out = append(out, "k=run gun=grpc tgt=grpc inst=2 m=1 alog=all dbg=1 reqs=big:0,ok:0,garbage:1")
+	for i := 0; i < mul(40, 2000); i++ {
 		k := 1 + r.Intn(3)
 		var calls []string
 		for j := 0; j < k; j++ {
-			kind := []string{"ok", "ok", "code", "nomethod", "badpayload"}[r.Intn(5)]
+			kc := strings.SplitN(randGrpcKind(r), ":", 2)
 			pp := "-"
 			switch r.Intn(4) {
 			case 0:
@@ -661,10 +838,18 @@ func gen(r *rand.Rand, tier string) []string {
 			case 1:
 				pp = fmt.Sprintf("as%d:%s", []int{200, 0}[r.Intn(2)], hx([]string{"Hello", "zzz"}[r.Intn(2)]))
 			}
-			calls = append(calls, fmt.Sprintf("tg%d,%s,%d,%s", j, kind, 1+r.Intn(17), pp))
+			calls = append(calls, fmt.Sprintf("tg%d,%s,%s,%s", j, kc[0], kc[1], pp))
 		}
-		out = append(out, fmt.Sprintf("k=run gun=grpc/scenario tgt=grpc inst=%d n=%d calls=%s", []int{1, 2}[r.Intn(2)], 1+r.Intn(3), strings.Join(calls, ";")))
+		opts := ""
+		if r.Intn(3) == 0 {
+			opts += " alog=" + []string{"all", "warning", "error"}[r.Intn(3)]
+		}
+		if r.Intn(4) == 0 {
+			opts += " dbg=1"
+		}
+		out = append(out, fmt.Sprintf("k=run gun=grpc/scenario tgt=grpc inst=%d n=%d%s calls=%s", []int{1, 2}[r.Intn(2)], 1+r.Intn(3), opts, strings.Join(calls, ";")))
 	}
+	out = append(out, "k=run gun=grpc/scenario tgt=grpc inst=1 n=2 to=600 calls=t0,hang,0,as200;t1,ok,0,-")
 	return out
 }
 
@@ -677,10 +862,34 @@ func class(input, obs string) string {
 			c += ":substr"
 		}
 	}
+	if m["k"] == "run" {
+		for _, o := range []string{"alog", "trace", "dump", "dbg", "redir", "gz", "shc"} {
+			if m[o] != "" {
+				c += ":opts"
+				break
+			}
+		}
+		if strings.Contains(input, ",U") || strings.Contains(input, "+U") {
+			c += ":chained"
+		}
+	}
 	if strings.Contains(obs, "res=panic") || strings.HasPrefix(obs, "PANIC") {
 		c += ":PANIC"
 	}
 	return c
+}
+
+// workers: the machine has 16 cores; the thorough tier uses most of them, quick stays modest (other checks run too)
+func workers() int {
+	for i, a := range os.Args {
+		if (a == "-tier" || a == "--tier") && i+1 < len(os.Args) && os.Args[i+1] == "thorough" {
+			return 12
+		}
+		if a == "-tier=thorough" || a == "--tier=thorough" {
+			return 12
+		}
+	}
+	return 6
 }
 
 func main() {
@@ -689,11 +898,14 @@ func main() {
 		Gen:     gen,
 		Run:     run,
 		Class:   class,
-		Workers: 4,
+		Workers: workers(),
 		Timeout: 120 * time.Second,
 		Rule: "the real engine with every gun kind (http, connect, http2, http/scenario, grpc, grpc/scenario) against scripted misbehaving targets " +
-			"(any status, empty/multi-MB/truncated bodies, malformed heads, invalid JSON/HTML, short header values, early close, reset, refusal, silence) " +
-			"with random lists of all postprocessor kinds; plus direct differential of the modifier / assertion / extractor functions on random " +
-			"values and arguments (negative, swapped, beyond-length, 64-bit extreme substr indices); non-trivial = at least one response processed",
+			"(any status incl. 000/999, empty/multi-MB/truncated bodies, malformed heads, bad chunking / Content-Length / Transfer-Encoding / gzip, 1xx storms, " +
+			"redirect loops, invalid JSON/HTML, short header values, early close, reset, refusal, silence; gRPC: any status code, undecodable / foreign / oversized " +
+			"messages, broken status details, server going away) with random lists of all postprocessor kinds, response-derived variables used by the next step, " +
+			"and random gun settings (answlog, httptrace, debug logging, redirects, gzip, shared clients); plus direct differential of the modifier / assertion / " +
+			"extractor functions on random values and arguments and EXHAUSTIVELY on every substr(start[, end]) in a window around every short value length; " +
+			"non-trivial = at least one response processed",
 	})
 }
